@@ -411,6 +411,16 @@ def compound_attacks(tier):
                     walk(v, path + (i,))
 
         walk(tree.get("header") or {}, ("header",))
+        # a file count just under what the remaining data admits, with the names running out early: every name costs a scan for its terminator
+        for path in mutate.iter_number_sites(tree):
+            if path[-1] == "numfiles":
+                for val in (bound - 1, bound // 2, nf * 20):
+                    t = copy.deepcopy(tree)
+                    mutate.set_at(t, path, val)
+                    try:
+                        yield (f"{nf} folders: numfiles := {val}", mutate.build_from_tree(t))
+                    except Exception:  # noqa
+                        pass
         for vp in vectors:
             for val in (bound - 1, bound // 2, bound * 4 // nf, 1 << 20, (1 << 32) - 1):
                 for drop_rest in (False, True):
